@@ -160,10 +160,13 @@ func c05ExecPNames(c c05Case, o *core.Obs) {
 // selfrec part: a component that includes itself through its own shorthand tag
 // (a tree), compared with the same component written with <template include>.
 
-func c05NSelfRec() int { return 2 * 4 }
+func c05NSelfRec() int { return 2 * len(c05SelfRecForms) }
+
+var c05SelfRecForms = []string{"short", "include", "nest-short", "nest-include",
+	"shadow-prop-include", "shadow-prop-short", "shadow-fm-include", "shadow-fm-short", "shadow-prop-in-loop"}
 
 func c05GenSelfRec(i int) c05Case {
-	return c05Case{Part: "selfrec", Entry: []string{"tpl", "vue"}[i%2], PN: &c05PN{Form: []string{"short", "include", "nest-short", "nest-include"}[(i/2)%4]}}
+	return c05Case{Part: "selfrec", Entry: []string{"tpl", "vue"}[i%2], PN: &c05PN{Form: c05SelfRecForms[(i/2)%len(c05SelfRecForms)]}}
 }
 
 // nest forms: a shorthand tag written in the content supplied to another
@@ -208,7 +211,98 @@ func c05ExecNestShort(c c05Case, o *core.Obs) {
 	}
 }
 
+// shadow forms: a map-valued prop (or front-matter key) named like a variable of the includer replaces that
+// variable as a whole inside the component: a key only the includer's map has is not readable through it, by a
+// dotted path, a bracketed path, a bound attribute, a loop collection, or one include further down.
+func c05ExecShadowPath(c c05Case, o *core.Obs) {
+	attr := ` :user="u"`
+	fm := ""
+	switch {
+	case strings.HasPrefix(c.PN.Form, "shadow-fm"):
+		attr, fm = "", "---\nuser:\n  age: 3\n---\n"
+	}
+	inc := `<template include="components/UCard.vuego"` + attr + `></template>`
+	if strings.HasSuffix(c.PN.Form, "-short") {
+		inc = `<u-card` + attr + `></u-card>`
+	}
+	if c.PN.Form == "shadow-prop-in-loop" {
+		inc = `<section v-for="u in us"><u-card :user="u"></u-card></section>`
+	}
+	page := `<div data-m="before">[{{ user.name }}]</div>` + inc + `<div data-m="after">[{{ user.name }}|{{ user.age }}]</div>`
+	comp := fm + `<div data-m="card"><i data-p="age">[{{ user.age }}]</i><i data-p="dot">[{{ user.name }}]</i><i data-p="bracket">[{{ user['name'] }}]</i>` +
+		`<i data-p="attr" :title="user.name" :data-deep="user.deep.x">x</i><i data-p="filter">[{{ user.name | upper }}]</i><b data-p="loop" v-for="it in user.items">{{ it }}</b>` +
+		`<i data-p="deep">[{{ user.deep.x }}]</i><i data-p="cond" v-if="user.name">c</i><template include="components/UInner.vuego"></template></div>`
+	inner := `<em data-p="inner">[{{ user.name }}|{{ user.age }}]</em>`
+	files := map[string]string{"page.vuego": page, "components/UCard.vuego": comp, "components/UInner.vuego": inner}
+	data := map[string]any{
+		"user": map[string]any{"name": "Ann", "items": []any{1, 2}, "deep": map[string]any{"x": "OUT"}},
+		"u":    map[string]any{"age": 3, "deep": map[string]any{}},
+		"us":   []any{map[string]any{"age": 3}},
+	}
+	var b bytes.Buffer
+	var err error
+	fsys := memFS(files)
+	if c.Entry == "vue" {
+		v := vuego.NewVue(fsys)
+		v.RegisterComponent("u-card", "components/UCard.vuego")
+		err = v.Render(&b, "page.vuego", data)
+	} else {
+		err = vuego.NewFS(fsys, vuego.WithComponents()).Load("page.vuego").Fill(data).Render(bg, &b)
+	}
+	o.Evals++
+	o.NT("selfrec", c.Entry, c.PN.Form)
+	o.Cell("part/selfrec/" + c.PN.Form)
+	sig := "shadow/" + strings.TrimPrefix(c.PN.Form, "shadow-")
+	if err != nil {
+		o.Fail(c, sig+"/error", "render failed: %v\npage: %s\ncomponent: %s", err, page, comp)
+		return
+	}
+	doc := oracle.ParseAuto(b.String())
+	text := func(key, val string) string {
+		ns := doc.ByAttr(key, val)
+		if len(ns) != 1 {
+			return fmt.Sprintf("<%d elements>", len(ns))
+		}
+		return strings.TrimSpace(ns[0].InnerText())
+	}
+	bad := func(what, want, got string) {
+		o.Fail(c, sig+"/"+what, "a map-valued %s named like the includer's variable `user` (includer: {name, items, deep.x}; the component's: {age}): %s: want %q, got %q\npage: %s\ncomponent: %s\noutput: %s",
+			map[bool]string{true: "front-matter key", false: "prop"}[fm != ""], what, want, got, page, comp, clip(b.String(), 900))
+	}
+	for _, w := range [][2]string{{"age", "[3]"}, {"dot", "[]"}, {"bracket", "[]"}, {"filter", "[]"}, {"deep", "[]"}, {"inner", "[|3]"}} {
+		if got := text("data-p", w[0]); got != w[1] {
+			bad("component-reads-includer-key/"+w[0], w[1], got)
+		}
+	}
+	if n := doc.ByAttr("data-p", "attr"); len(n) == 1 {
+		if v, ok := n[0].Attr("title"); ok {
+			bad("component-reads-includer-key/bound-attr", "(no title attribute)", v)
+		}
+		if v, ok := n[0].Attr("data-deep"); ok {
+			bad("component-reads-includer-key/bound-attr-deep", "(no data-deep attribute)", v)
+		}
+	} else {
+		bad("probe-missing/attr", "1 element", fmt.Sprint(len(n)))
+	}
+	if n := len(doc.ByAttr("data-p", "loop")); n != 0 {
+		bad("component-reads-includer-key/loop-collection", "0 iterations", fmt.Sprint(n))
+	}
+	if n := len(doc.ByAttr("data-p", "cond")); n != 0 {
+		bad("component-reads-includer-key/condition", "absent", "present")
+	}
+	if got := text("data-m", "before"); got != "[Ann]" {
+		bad("includer-before", "[Ann]", got)
+	}
+	if got := text("data-m", "after"); got != "[Ann|]" {
+		bad("includer-after", "[Ann|]", got)
+	}
+}
+
 func c05ExecSelfRec(c c05Case, o *core.Obs) {
+	if strings.HasPrefix(c.PN.Form, "shadow-") {
+		c05ExecShadowPath(c, o)
+		return
+	}
 	if strings.HasPrefix(c.PN.Form, "nest-") {
 		c05ExecNestShort(c, o)
 		return
